@@ -461,7 +461,11 @@ let run_history_case c =
   let src = str_of_string (unhex (field c "script")) in
   let objs = Array.of_list (List.map dec_host (if field c "objs" = "" then [] else split_top (field c "objs") ';')) in
   let ops = if field c "ops" = "" then ["prepare:opt"; "exec:0"] else String.split_on_char ';' (field c "ops") in
-  let ops = List.map (dec_op objs) ops in
+  (* `rescript:<hex>`: the host assigns the public Script field of the evaluator (nothing else changes; the next Prepare
+     compiles the new text).  Glue, not model: the evaluator record gets the new script text. *)
+  let is_rescript s = String.length s > 9 && String.sub s 0 9 = "rescript:" in
+  let ops = List.map (fun s -> if is_rescript s then (Some (str_of_string (unhex (String.sub s 9 (String.length s - 9)))), ODump)
+                               else (None, dec_op objs s)) ops in
   let fuel = nat_of_int !default_fuel in
   (* the reference interpreter (Spec/Exec.v) on the syntax tree, from the same state, for every Execute/Run *)
   let spec_of (e : eval) (ob : hostval) : string =
@@ -481,10 +485,12 @@ let run_history_case c =
                               | EPanic -> "panic-recovered" | _ -> "other") in
             Printf.sprintf "%s|n|%s|%s" c (enc_trace (List.rev m.trace)) (enc_vars m.menv.globals))
        | _ -> "na") in
-  let rec loop (e : eval) (ops : op list) (i : int) (acc : string list) (specs : string list) =
+  let rec loop (e : eval) (ops : (str option * op) list) (i : int) (acc : string list) (specs : string list) =
     match ops with
     | [] -> (List.rev acc, List.rev specs)
-    | x :: rest ->
+    | (Some newsrc, _) :: rest ->
+      loop { e with escript = newsrc } rest (i + 1) (Printf.sprintf "o%d=%s" i (enc_opres RUnit) :: acc) specs
+    | (None, x) :: rest ->
       let sp = (match x with
                 | OExec ob | ORun ob -> [Printf.sprintf "s%d=%s" i (spec_of e ob)]
                 | _ -> []) in
